@@ -213,6 +213,56 @@ structure KwConf (cv : Conv) (fmt : Bytes → Bytes) (flush : Bool) (tbl : Table
 def normRecords (fmt : Bytes → Bytes) (rs : List (List Vals)) : List (List Vals) :=
   rs.map (·.map (·.map (normP fmt)))
 
+/-- the cleaned lines of a written keyword. -/
+def kwLines (fmt : Bytes → Bytes) (flush : Bool) (k : KwW) : List Bytes :=
+  k.name :: bodyLines k.split k.closing (k.records.map fun r => emitToks fmt flush false 0 r.flatten)
+
+/-- one step of the keyword loop on the LINES of a written keyword, in front of any lines
+(also the end-of-file marker of an included file). -/
+theorem parseLoop_written_kw_lines (cv : Conv) (fmt : Bytes → Bytes) (flush : Bool) (tbl : Table) (recog : Bytes → Bool)
+    (files : List (Bytes × Bytes) → Bytes → Option Bytes) (fuel : Nat) (al : List (Bytes × Bytes))
+    (deck : DeckT) (k : KwW) (rest : List Bytes) (hk : KwConf cv fmt flush tbl recog deck k) :
+    parseLoop cv tbl recog files (fuel + 1) al deck (kwLines fmt flush k ++ rest) =
+      parseLoop cv tbl recog files fuel al (deck ++ [⟨k.name, normRecords fmt k.records⟩]) rest := by
+  obtain ⟨d, k0, hn, hraw, hk0r, hdbl, hcase, hrec⟩ := hk.ex
+  have hfind : findKw tbl k.name = some (k.name, d) := by
+    unfold findKw
+    have : ¬ (k.name.length > 8) := by have := hn.short; omega
+    simp only [this, ↓reduceIte, hn.found]
+  unfold kwLines
+  rcases hcase with ⟨hfin, hrs, hcl⟩ | ⟨hnf, hne, hrun, hbody⟩
+  · have hbody0 : bodyLines k.split k.closing (k.records.map fun r => emitToks fmt flush false 0 r.flatten) = [] := by
+      simp [bodyLines, hrs, hcl]
+    have hpr : parseRecords cv d.schemas d.alt 0 k0.records = some [] := by rw [hk0r]; rfl
+    rw [hbody0]
+    simp only [List.cons_append, List.nil_append, parseLoop, parseStep, keywordRes, dispatch, hn.nonempty,
+      Bool.false_eq_true, ↓reduceIte, name_ne_eofMark hn, hn.deckName, hn.notSkip,
+      hn.notEndskip, hn.valid, Bool.not_true, hfind, hraw, hfin, hn.notEnd, hn.notEndinc, hn.notPaths, hn.notInclude,
+      hdbl, hpr, hrs, normRecords, List.map_nil]
+  · obtain ⟨kf, h1, h2, h3⟩ := parse_write_keyword_linesL cv fmt flush k.split k.closing recog k0 hk0r d.schemas d.alt
+      k.records rest hne hrun hbody hrec
+    simp only [List.cons_append, parseLoop, parseStep, keywordRes, dispatch, hn.nonempty, Bool.false_eq_true, ↓reduceIte,
+      name_ne_eofMark hn, hn.deckName, hn.notSkip,
+      hn.notEndskip, hn.valid, Bool.not_true, hfind, hraw, hnf, hn.notTitle, h1, h2, hn.notEnd, hn.notEndinc,
+      hn.notPaths, hn.notInclude, hdbl, h3, normRecords]
+
+theorem linesOf_kwText (cv : Conv) (fmt : Bytes → Bytes) (flush : Bool) (tbl : Table) (recog : Bytes → Bool)
+    (deck : DeckT) (k : KwW) (hk : KwConf cv fmt flush tbl recog deck k) (R : Bytes) :
+    splitLines (fastClean (kwText fmt flush k ++ R)) = kwLines fmt flush k ++ splitLines (fastClean R) := by
+  obtain ⟨d, k0, hn, hraw, hk0r, hdbl, hcase, hrec⟩ := hk.ex
+  unfold kwText kwLines
+  have h1 := lines_word k.name hn.noNL hn.clean (bodyText fmt flush k.split k.closing k.records ++ R)
+  have e : k.name ++ [10] ++ bodyText fmt flush k.split k.closing k.records ++ R =
+      k.name ++ 10 :: (bodyText fmt flush k.split k.closing k.records ++ R) := by simp [List.append_assoc]
+  rw [e, h1]
+  rcases hcase with ⟨hfin, hrs, hcl⟩ | ⟨hnf, hne, hrun, hbody⟩
+  · simp [bodyText, bodyLines, hrs, hcl]
+  · rw [lines_body fmt flush k.split k.closing k.records (by
+      intro r hr t ht
+      have := hbody.safe _ (List.mem_map.mpr ⟨r, hr, rfl⟩) t ht
+      exact ⟨cleanSafe_of_tokSafe this.1, this.2⟩) R]
+    simp
+
 /-- **one step of the keyword loop on a written keyword**: from any keyword boundary (any
 deck parsed so far, any aliases), in front of any following text `R`, the lines of the
 written keyword are consumed and the keyword is appended to the deck with the records that
@@ -238,12 +288,12 @@ theorem parseLoop_written_kw (cv : Conv) (fmt : Bytes → Bytes) (flush : Bool) 
     have hbody0 : bodyText fmt flush k.split k.closing k.records = [] := by simp [bodyText, hrs, hcl]
     have hpr : parseRecords cv d.schemas d.alt 0 k0.records = some [] := by rw [hk0r]; rfl
     rw [hbody0, List.nil_append]
-    simp only [parseLoop, hn.nonempty, Bool.false_eq_true, ↓reduceIte, name_ne_eofMark hn, hn.deckName, hn.notSkip,
+    simp only [parseLoop, parseStep, keywordRes, dispatch, hn.nonempty, Bool.false_eq_true, ↓reduceIte, name_ne_eofMark hn, hn.deckName, hn.notSkip,
       hn.notEndskip, hn.valid, Bool.not_true, hfind, hraw, hfin, hn.notEnd, hn.notEndinc, hn.notPaths, hn.notInclude,
       hdbl, hpr, hbody0, List.nil_append, hrs, normRecords, List.map_nil]
   · obtain ⟨kf, h1, h2, h3⟩ := parse_write_keyword_lines cv fmt flush k.split k.closing recog k0 hk0r d.schemas d.alt
       k.records R hne hrun hbody hrec
-    simp only [parseLoop, hn.nonempty, Bool.false_eq_true, ↓reduceIte, name_ne_eofMark hn, hn.deckName, hn.notSkip,
+    simp only [parseLoop, parseStep, keywordRes, dispatch, hn.nonempty, Bool.false_eq_true, ↓reduceIte, name_ne_eofMark hn, hn.deckName, hn.notSkip,
       hn.notEndskip, hn.valid, Bool.not_true, hfind, hraw, hnf, hn.notTitle, h1, h2, hn.notEnd, hn.notEndinc,
       hn.notPaths, hn.notInclude, hdbl, h3, normRecords]
 
@@ -283,13 +333,13 @@ theorem mem_blanks {b : UInt8} (h : b ∈ ([32, 32] : Bytes)) : b = 32 := by
 def titleText (fmt : Bytes → Bytes) (lead : Bytes) (r : List Vals) : Bytes :=
   nameTITLE ++ [10] ++ ([32, 32] ++ lead ++ joinBlank (r.flatten.map fun p => valTok fmt p.1)) ++ [10]
 
-/-- **one step of the keyword loop on a written TITLE**: the line after `TITLE` is taken as
-its record whatever it holds, tokenised, and parsed with the schema of TITLE. -/
-theorem parseLoop_written_title (cv : Conv) (fmt : Bytes → Bytes) (flush : Bool) (tbl : Table) (recog : Bytes → Bool)
-    (files : List (Bytes × Bytes) → Bytes → Option Bytes) (fuel : Nat) (al : List (Bytes × Bytes))
+/-- the cleaned lines of a written TITLE. -/
+def titleLines (fmt : Bytes → Bytes) (r : List Vals) : List Bytes :=
+  [nameTITLE, joinBlank (r.flatten.map fun p => valTok fmt p.1)]
+
+theorem linesOf_titleText (cv : Conv) (fmt : Bytes → Bytes) (flush : Bool) (tbl : Table)
     (deck : DeckT) (lead : Bytes) (r : List Vals) (R : Bytes) (h : TitleConf cv fmt flush tbl deck lead r) :
-    parseLoop cv tbl recog files (fuel + 1) al deck (splitLines (fastClean (titleText fmt lead r ++ R))) =
-      parseLoop cv tbl recog files fuel al (deck ++ [⟨nameTITLE, normRecords fmt [r]⟩]) (splitLines (fastClean R)) := by
+    splitLines (fastClean (titleText fmt lead r ++ R)) = titleLines fmt r ++ splitLines (fastClean R) := by
   obtain ⟨d, k0, hfound, hraw, hfix, hk0r, hdbl, items, hschema, hconf, hlen, htrail⟩ := h.ex
   have hns := h.notSkip
   have hnes := h.notEndskip
@@ -351,6 +401,27 @@ theorem parseLoop_written_title (cv : Conv) (fmt : Bytes → Bytes) (flush : Boo
     have hz := cleanLine_sep [32] (joinBlank toks) [] (by decide) (by simp)
     simp only [List.append_nil] at hx hy hz
     rw [hy, ← hz]; exact hx
+  unfold titleLines
+  rw [htoks]
+  exact hl1
+
+/-- one step of the keyword loop on the LINES of a written TITLE, in front of any lines. -/
+theorem parseLoop_written_title_lines (cv : Conv) (fmt : Bytes → Bytes) (flush : Bool) (tbl : Table) (recog : Bytes → Bool)
+    (files : List (Bytes × Bytes) → Bytes → Option Bytes) (fuel : Nat) (al : List (Bytes × Bytes))
+    (deck : DeckT) (lead : Bytes) (r : List Vals) (rest : List Bytes) (h : TitleConf cv fmt flush tbl deck lead r) :
+    parseLoop cv tbl recog files (fuel + 1) al deck (titleLines fmt r ++ rest) =
+      parseLoop cv tbl recog files fuel al (deck ++ [⟨nameTITLE, normRecords fmt [r]⟩]) rest := by
+  obtain ⟨d, k0, hfound, hraw, hfix, hk0r, hdbl, items, hschema, hconf, hlen, htrail⟩ := h.ex
+  have hns := h.notSkip
+  have hnes := h.notEndskip
+  generalize htoks : (r.flatten.map fun p => valTok fmt p.1) = toks at *
+  have hne : toks ≠ [] := by rw [← htoks]; simpa using h.nonempty
+  have hsafe : ∀ t ∈ toks, LineSafe t ∧ NoNL t := by
+    intro t ht
+    rw [← htoks] at ht
+    obtain ⟨p, hp, rfl⟩ := List.mem_map.mp ht
+    exact h.safe p hp
+  have hcs : ∀ t ∈ toks, CleanSafe t := fun t ht => ⟨(hsafe t ht).1.1, (hsafe t ht).1.2.2.2⟩
   have hfind : findKw tbl nameTITLE = some (nameTITLE, d) := by
     unfold findKw
     have : ¬ (nameTITLE.length > 8) := by decide
@@ -358,7 +429,7 @@ theorem parseLoop_written_title (cv : Conv) (fmt : Bytes → Bytes) (flush : Boo
   have hjm : (joinBlank toks = eofMark) = False := by
     simp only [eq_iff_iff, iff_false]
     exact joinBlank_ne_eofMark toks (fun t ht => (hsafe t ht).2)
-  have htn : titleNext false (joinBlank toks :: splitLines (fastClean R)) = some (joinBlank toks, splitLines (fastClean R)) := by
+  have htn : titleNext false (joinBlank toks :: rest) = some (joinBlank toks, rest) := by
     simp only [titleNext, hjm, ↓reduceIte, hns, Bool.false_eq_true, hnes]
   have htr : titleRecord (joinBlank toks) = some toks := titleRecord_joinBlank toks hne (fun t ht => (hsafe t ht).1)
   have hemit : emitToks fmt flush false 0 r.flatten = toks := by
@@ -373,14 +444,26 @@ theorem parseLoop_written_title (cv : Conv) (fmt : Bytes → Bytes) (flush : Boo
     have hp := parse_write_tokens cv fmt flush items r hconf hlen htrail
     rw [hemit] at hp
     simp only [parseRecords, hschema, hp]
-  rw [hl1]
-  simp only [parseLoop, show nameTITLE.isEmpty = false from by decide, Bool.false_eq_true, ↓reduceIte,
+  unfold titleLines
+  rw [htoks]
+  simp only [List.cons_append, List.nil_append]
+  simp only [parseLoop, parseStep, keywordRes, dispatch, show nameTITLE.isEmpty = false from by decide, Bool.false_eq_true, ↓reduceIte,
     show (nameTITLE = eofMark) = False from by decide, show makeDeckName nameTITLE = nameTITLE from by decide,
     show isSkipName nameTITLE = false from by decide, show (nameTITLE == nameENDSKIP) = false from by decide,
     show validDeckName nameTITLE = true from by decide, Bool.not_true, hfind, hraw, hfix.fin, beq_self_eq_true,
     htn, htr, hadd.1, hadd.2, show (nameTITLE == nameEND) = false from by decide,
     show (nameTITLE == nameENDINC) = false from by decide, show (nameTITLE == namePATHS) = false from by decide,
     show (nameTITLE == nameINCLUDE) = false from by decide, hdbl, hparse, normRecords, List.map_cons, List.map_nil]
+
+/-- **one step of the keyword loop on a written TITLE**: the line after `TITLE` is taken as
+its record whatever it holds, tokenised, and parsed with the schema of TITLE. -/
+theorem parseLoop_written_title (cv : Conv) (fmt : Bytes → Bytes) (flush : Bool) (tbl : Table) (recog : Bytes → Bool)
+    (files : List (Bytes × Bytes) → Bytes → Option Bytes) (fuel : Nat) (al : List (Bytes × Bytes))
+    (deck : DeckT) (lead : Bytes) (r : List Vals) (R : Bytes) (h : TitleConf cv fmt flush tbl deck lead r) :
+    parseLoop cv tbl recog files (fuel + 1) al deck (splitLines (fastClean (titleText fmt lead r ++ R))) =
+      parseLoop cv tbl recog files fuel al (deck ++ [⟨nameTITLE, normRecords fmt [r]⟩]) (splitLines (fastClean R)) := by
+  rw [linesOf_titleText cv fmt flush tbl deck lead r R h]
+  exact parseLoop_written_title_lines cv fmt flush tbl recog files fuel al deck lead r _ h
 
 /-! ### the whole deck -/
 
@@ -409,6 +492,61 @@ def Conforms (cv : Conv) (fmt : Bytes → Bytes) (flush : Bool) (tbl : Table) (r
     DeckT → List DK → Prop
   | _, [] => True
   | deck, k :: ks => k.Conf cv fmt flush tbl recog deck ∧ Conforms cv fmt flush tbl recog (deck ++ [k.result fmt]) ks
+
+def DK.lines (fmt : Bytes → Bytes) (flush : Bool) : DK → List Bytes
+  | .kw k => kwLines fmt flush k
+  | .title _ r => titleLines fmt r
+
+theorem linesOf_dkText (cv : Conv) (fmt : Bytes → Bytes) (flush : Bool) (tbl : Table) (recog : Bytes → Bool)
+    (deck : DeckT) (k : DK) (hk : k.Conf cv fmt flush tbl recog deck) (R : Bytes) :
+    splitLines (fastClean (k.text fmt flush ++ R)) = k.lines fmt flush ++ splitLines (fastClean R) := by
+  cases k with
+  | kw k => exact linesOf_kwText cv fmt flush tbl recog deck k hk R
+  | title lead r => exact linesOf_titleText cv fmt flush tbl deck lead r R hk
+
+theorem parseLoop_written_dk_lines (cv : Conv) (fmt : Bytes → Bytes) (flush : Bool) (tbl : Table) (recog : Bytes → Bool)
+    (files : List (Bytes × Bytes) → Bytes → Option Bytes) (fuel : Nat) (al : List (Bytes × Bytes))
+    (deck : DeckT) (k : DK) (rest : List Bytes) (hk : k.Conf cv fmt flush tbl recog deck) :
+    parseLoop cv tbl recog files (fuel + 1) al deck (k.lines fmt flush ++ rest) =
+      parseLoop cv tbl recog files fuel al (deck ++ [k.result fmt]) rest := by
+  cases k with
+  | kw k => exact parseLoop_written_kw_lines cv fmt flush tbl recog files fuel al deck k rest hk
+  | title lead r => exact parseLoop_written_title_lines cv fmt flush tbl recog files fuel al deck lead r rest hk
+
+/-- the cleaned lines of a written deck. -/
+def deckLines (fmt : Bytes → Bytes) (flush : Bool) (ks : List DK) : List Bytes := ks.flatMap (DK.lines fmt flush)
+
+theorem linesOf_deckText (cv : Conv) (fmt : Bytes → Bytes) (flush : Bool) (tbl : Table) (recog : Bytes → Bool) (R : Bytes) :
+    ∀ (ks : List DK) (deck : DeckT), Conforms cv fmt flush tbl recog deck ks →
+    splitLines (fastClean (deckText fmt flush ks ++ R)) = deckLines fmt flush ks ++ splitLines (fastClean R) := by
+  intro ks
+  induction ks with
+  | nil => intro deck _; simp [deckText, deckLines]
+  | cons k ks ih =>
+    intro deck h
+    obtain ⟨hk, hks⟩ := h
+    have e : deckText fmt flush (k :: ks) ++ R = k.text fmt flush ++ (deckText fmt flush ks ++ R) := by
+      simp [deckText, List.append_assoc]
+    rw [e, linesOf_dkText cv fmt flush tbl recog deck k hk, ih _ hks]
+    simp [deckLines, List.append_assoc]
+
+/-- the keyword loop on the LINES of a written deck, in front of any lines. -/
+theorem parseLoop_written_deck_lines (cv : Conv) (fmt : Bytes → Bytes) (flush : Bool) (tbl : Table) (recog : Bytes → Bool)
+    (files : List (Bytes × Bytes) → Bytes → Option Bytes) (al : List (Bytes × Bytes)) (rest : List Bytes) :
+    ∀ (ks : List DK) (fuel : Nat) (deck : DeckT), Conforms cv fmt flush tbl recog deck ks →
+    parseLoop cv tbl recog files (fuel + ks.length) al deck (deckLines fmt flush ks ++ rest) =
+      parseLoop cv tbl recog files fuel al (deck ++ ks.map (DK.result fmt)) rest := by
+  intro ks
+  induction ks with
+  | nil => intro fuel deck _; simp [deckLines]
+  | cons k ks ih =>
+    intro fuel deck h
+    obtain ⟨hk, hks⟩ := h
+    have e : deckLines fmt flush (k :: ks) ++ rest = k.lines fmt flush ++ (deckLines fmt flush ks ++ rest) := by
+      simp [deckLines, List.append_assoc]
+    have ef : fuel + (k :: ks).length = (fuel + ks.length) + 1 := by simp; omega
+    rw [e, ef, parseLoop_written_dk_lines cv fmt flush tbl recog files (fuel + ks.length) al deck k _ hk, ih fuel _ hks]
+    simp [List.append_assoc]
 
 theorem parseLoop_written_dk (cv : Conv) (fmt : Bytes → Bytes) (flush : Bool) (tbl : Table) (recog : Bytes → Bool)
     (files : List (Bytes × Bytes) → Bytes → Option Bytes) (fuel : Nat) (al : List (Bytes × Bytes))
@@ -451,7 +589,7 @@ theorem parse_write_deck (cv : Conv) (fmt : Bytes → Bytes) (flush : Bool) (tbl
   rw [this]
   have hl : splitLines (fastClean [10]) = [[]] := by decide
   rw [hl]
-  simp [parseLoop]
+  simp [parseLoop, parseStep]
 
 /-! ### `deckText` is what the literal `DeckOutput` mirror writes -/
 
